@@ -16,7 +16,7 @@ steppers on every run (`c06.fixed` at `Rat` and at the Gaussian rationals `CQ`, 
 (3) `fixedLoop_congr`, `fixedStepper_stage_times`, `mem_callTimes`, `fixedStepper_callTimes`, `fixedStepper_euler_stage_times`, `fixedStepper_rk4_stage_times`,
     `fixedStepper_implicit_cn_stage_times`, `ab2Stepper_stage_times`
 (4) termination of the adaptive loops (ordered Archimedean field): `Shrinks`, `adjustDt_shrinks`, `adaptive_terminates`,
-    `adaptive_finishes_exact_or_floor`, `eulerAdaptive_finishes_exact_or_floor`
+    `adaptive_finishes_exact_or_floor`, `eulerAdaptive_finishes_exact_or_floor`, `shrinks_ctlOf`, `adaptive_terminates_ctlOf`
 -/
 set_option linter.unusedSimpArgs false
 set_option linter.unusedSectionVars false
@@ -684,6 +684,35 @@ theorem eulerAdaptive_finishes_exact_or_floor [Archimedean K] (C : Ctl K) (ρ : 
 example : Shrinks (K := ℝ) ⟨1, 1 / 10 ^ 10, 10 ^ 10, 57665 / 10 ^ 8, 4, 1 / 4, 9 / 10, -1 / 5, 1 / 10, fun _ _ => 1, fun _ => false⟩
     (9 / 10) := by
   refine ⟨by norm_num, by norm_num, ?_, ?_, ?_, ?_, ?_, ?_⟩ <;> norm_num
+
+/-- **the controller of the source shrinks rejected steps**: with the extracted constants (through `ctl_constants_sane`
+only), any `0 < dt_min ≤ dt_max`, any tolerance and any `pow` with `e ** expo ≤ 1` for `e > 1` (true of the real power
+function, the exponent being negative), `ρ = max(nan factor, safety factor)` (`= 0.9`) -/
+theorem shrinks_ctlOf (tol dtMin dtMax : K) (pow : K → K → K) (isNan : K → Bool)
+    (hmin : 0 < dtMin) (hle : dtMin ≤ dtMax) (hpow : ∀ e, 1 < e → pow e Generated.ctl_expo ≤ 1) :
+    Shrinks (ctlOf tol dtMin dtMax pow isNan) (max Generated.ctl_nan Generated.ctl_safety) := by
+  obtain ⟨_, hs1, _, hn0, hn1, hd0, hds, hsf1, _, _, _, _⟩ := ctl_constants_sane (K := K)
+  have hsf0 : (0 : K) < Generated.ctl_safety := lt_trans hd0 hds
+  refine ⟨le_trans hn0.le (le_max_left _ _), max_lt hn1 hsf1, hmin, hle, hs1.le, le_max_left _ _,
+    le_trans hds.le (le_max_right _ _), ?_⟩
+  intro e he
+  simp only [ctlOf]
+  calc Generated.ctl_safety * pow e Generated.ctl_expo ≤ Generated.ctl_safety * 1 :=
+        mul_le_mul_of_nonneg_left (hpow e he) hsf0.le
+    _ = Generated.ctl_safety := mul_one _
+    _ ≤ max Generated.ctl_nan Generated.ctl_safety := le_max_right _ _
+
+/-- **every adaptive call of the solvers as configured by the source finishes** (generic loop with any estimator and the
+specialised Euler loop): instance of `adaptive_terminates` for `ctlOf` -/
+theorem adaptive_terminates_ctlOf [Archimedean K] (tol dtMin dtMax : K) (pow : K → K → K) (isNan : K → Bool)
+    (hmin : 0 < dtMin) (hle : dtMin ≤ dtMax) (hpow : ∀ e, 1 < e → pow e Generated.ctl_expo ≤ 1)
+    (est : List K → K → K → List K × K) (f : Rate K) (us : List K) (tStart tEnd dt0 : K) (hstart : tStart < tEnd) :
+    ∃ N : Nat, ∀ fuel, N ≤ fuel → ∀ r,
+      adaptiveStepper (ctlOf tol dtMin dtMax pow isNan) est fuel us tStart tEnd dt0 ≠ .fuel r
+      ∧ eulerAdaptiveStepper (ctlOf tol dtMin dtMax pow isNan) f fuel us tStart tEnd dt0 ≠ .fuel r :=
+  adaptive_terminates _ _ (shrinks_ctlOf tol dtMin dtMax pow isNan hmin hle hpow) est f us tStart tEnd dt0 hstart
+
+example : ∀ e : ℝ, 1 < e → (fun _ _ => (1 : ℝ)) e (Generated.ctl_expo : ℝ) ≤ 1 := fun _ _ => le_rfl
 
 end termination
 
